@@ -203,9 +203,47 @@ def rule_dfs_epilogue(prog, fixture=False):
                                 check_returns(t, depth + 1)
                     r.add(key, fn.loc(n), True, "status variable fed only by the status helper (checked) and non-zero constants")
                     continue
+            # a status variable: what matters is the stream state on the paths where it may still be zero
+            if e.get("k") == "DeclRefExpr" and e.get("dk") == "Var":
+                vd = e.get("d")
+
+                def zval(rhs):
+                    vs_ = c07.value_set(prog, fn, rhs)
+                    return "nz" if (vs_ is not None and 0 not in vs_) else "0?"
+
+                def elem2(n_, t_):
+                    st_, z = t_
+                    st_ = elem_tf(n_, st_)
+                    if n_.get("k") == "DeclStmt":
+                        for v_ in n_.get("c", []):
+                            if v_.get("k") == "VarDecl" and v_.get("d") == vd and v_.get("c"):
+                                z = zval(v_["c"][0])
+                    elif n_.get("k") == "VarDecl" and n_.get("d") == vd and n_.get("c"):
+                        z = zval(n_["c"][0])
+                    elif n_.get("k") == "BinaryOperator" and n_.get("op") == "=" and (strip_all(n_["c"][0]) or {}).get("d") == vd:
+                        z = zval(n_["c"][1])
+                    return (st_, z)
+
+                def edge2(facts_, t_):
+                    return (edge_tf(facts_, t_[0]), t_[1])
+                ps2 = PathStates(fn, ("U", "0?"), elem2, edge2)
+                sts = ps2.before(n)
+                if sts is not None:
+                    badz = sorted(s_ for (s_, z) in sts if z == "0?" and s_ != "T")
+                    if not badz:
+                        r.add(key, fn.loc(n), True, "the status variable can be 0 only after flush + good-state test")
+                        continue
             # delegated to a helper?
             if is_call(e) and depth < 3:
                 tgs = prog.call_targets(fn, e)
+                if tgs and all(t.raw.get("ret") == "int" for t in tgs) and not all(_is_status_helper(prog, t) for t in tgs):
+                    # any repo function that computes the exit status: the same obligations inside it
+                    for t in tgs:
+                        if t.uid not in checked:
+                            checked.append(t.uid)
+                            check_returns(t, depth + 1)
+                    r.add(key, fn.loc(n), True, "status computed by %s (checked)" % tgs[0].qn)
+                    continue
                 if tgs and all(_is_status_helper(prog, t) for t in tgs):
                     for t in tgs:
                         if t.uid not in checked:
